@@ -34,8 +34,9 @@ CLAIMED["C16"] = {
     "level": "Decides that every default float format reaching tofile keeps >= 17 significant digits, that the export "
              "offset equals the importer's default index_base which is subtracted and forwarded, that each kind is "
              "written and rebuilt in the same enumeration order (F/F dense, C/C factors and matrices), that the sequence "
-             "of text lines and numeric blocks written per kind equals the sequence read, and that sparse entry lines are "
-             "subscripts-then-value on both sides. Does not decide run-time parsing of extreme exponents.",
+             "of text lines and numeric blocks written per kind equals the sequence read, that sparse entry lines are "
+             "subscripts-then-value on both sides, and that the entry count in the sparse header is the number of stored "
+             "entries like the loop that writes them. Does not decide run-time parsing of extreme exponents.",
     "note": "Trusted: numpy tofile/fromfile text-mode contracts; a double round-trips through 17 significant digits.",
 }
 
